@@ -26,6 +26,9 @@ class ConstraintDistScopeModel(ConstraintInlineScopeModel):
         # Indicates the current-target range. This is used to
         # by solvegroup_swizzler_range.
         self.target_range = 0
+        
+        # Condition under which the dist constraint applies (None: always)
+        self.guard_cond = None
 
     def next_target_range(self, randstate : RandState) -> int:
         """Select the next target range from the weight list"""
